@@ -66,6 +66,11 @@ def stack_monotone(res, src, args, word=2):
         if o is None or o.klass == 'TIMEOUT':
             continue
         if 'stack_overflow' in o.flags:
+            if stack > hi:
+                # the run completes without overflow at `hi` words: a LARGER stack may not overflow
+                runner.fail(res, 'M-STACK', f'run completes without stack overflow at stack {hi} but ends in stack_overflow at the larger stack {stack}',
+                            diff.case_dict(src, args, word, stack, smaller_stack=hi), expected=G.brief(), observed=o.brief())
+                return
             runner.count(res, 'sweep_overflows')
             continue
         if o.stream != G.stream or o.klass != G.klass:
@@ -247,6 +252,16 @@ def run_shard(spec):
     for j, (tag, tsrc, targs) in enumerate(tight):
         if j % 16 == spec['seed'] % 16:
             progs.append((None, targs, tsrc))
+    # arrays of every element type and storage class indexed at run time, strings, tables: the same timeline at EVERY word size, also at the
+    # sizes that are not a power of two bytes (values stay within 16 bits, Tracking confirms it)
+    from ..gen import scale as _scale, idioms as _idioms
+    every_word = set()
+    pool = [(t, p, _scale.ARRAY_ARGS[0]) for t, p in _scale.long_array_programs() if t.endswith(('/7', '/9', '/17'))] + \
+           [(t, p, _idioms.TABLE_ARGS[0]) for t, p in _idioms.table_programs()] + [(t, p, _scale.DEPTH_ARGS[0]) for t, p in _scale.deep_nesting_programs() if t.endswith('/4')]
+    for k, (t, p, a) in enumerate(pool):
+        if k % 16 == spec['seed'] % 16:
+            progs.append((p, a, A.render(p)))
+            every_word.add(id(p))
     # entry points with 4-40 parameters (the entry frame grows with the argument count): monotone up to the largest stack the compiler accepts
     for k, tag, eprog, eargs in common.scale_items(('entry',)):
         if k % 16 == spec['seed'] % 16:
@@ -345,7 +360,7 @@ def run_shard(spec):
             fits = False
         if fits:
             base = None
-            for word in (2, 3, 4, 8, common.ODD_WORDS[i % 5], common.ODD_WORDS[(i + 2) % 5]):
+            for word in ((2, 3, 4, 8) + common.ODD_WORDS if id(prog) in every_word else (2, 3, 4, 8, common.ODD_WORDS[i % 5], common.ODD_WORDS[(i + 2) % 5])):
                 run = diff.compile_and_run(src, args, word=word, stack=diff.GENEROUS_STACK, max_steps=MAX_STEPS, monitors=False)
                 if run.kind != 'ok' or run.outcome.klass == 'TIMEOUT':
                     break
